@@ -126,6 +126,23 @@ func (ex *Executor) segmentEvents(st *State) []*Event {
 		switch e.Kind {
 		case "make", "default":
 			continue
+		case "call":
+			// a call of code outside the repository that is handed the address of a field which is new and never read
+			// by the repository (a flag variable nothing consumes yet) concerns nothing a contract can describe
+			dead := false
+			if ex.P.Funcs[e.Fn] == nil {
+				for _, a := range e.Args {
+					if a.P != nil && a.P.Kind == PField && a.P.Owner != nil {
+						if st := structOf(a.P.Owner); st != nil && a.P.Field < st.NumFields() && deadNewField(fieldMapName(a.P.Owner, st.Field(a.P.Field).Name())) {
+							dead = true
+						}
+					}
+				}
+			}
+			if dead {
+				ex.note("a call of %s that only concerns a new, never-read field is not an event", e.Fn)
+				continue
+			}
 		}
 		out = append(out, e)
 	}
